@@ -283,7 +283,15 @@ def replay(arg):
     su = bool(cfg["su"]) and cfg["kind"] == "pwc"
     as_array = bool(xseed % 2)
 
-    runs = [("main", dict(cfg), build_wrapper(cfg, variant, X, cfg["su"], wlist))]
+    real_su = cfg["su"]
+    if variant == "pwc-gamma-mean":
+        # a symbolic bandwidth depends on the training subset, so the wrapper switches the
+        # precomputed-kernel speed-up off: behaviours of the no-speed-up configuration are replayed,
+        # every other wrapper being CONSTRUCTED with use_speed_up=True
+        if cfg["su"]:
+            return [], 0
+        real_su = bool(xseed % 2)
+    runs = [("main", dict(cfg), build_wrapper(cfg, variant, X, real_su, wlist))]
     if su:   # paired run without the speed-up
         c2 = dict(cfg)
         c2["su"] = False
